@@ -7,10 +7,11 @@ from pv.core.runner import new_partial, violation
 PROP = "C13"
 ENGINE = "E6 configuration explorer"
 RULE = (
-    "every population of <= 3 (thorough 4) instances drawn from 8 receiver kinds (plain, value-equal with and without a type guard, value-equal and "
+    "every population of <= 3 (thorough 4) instances drawn from 9 receiver kinds (plain, false in a boolean context, value-equal with and without a type guard, value-equal and "
     "hashable, value-equal and unhashable, subclass inheriting the method, __slots__, receiver parameter "
     "not called self) x every probed target (the class attribute, each instance through obj.meth, a "
-    "functools.wraps-decorated method, a property, a dotted holder.inner.obj.meth path) x every call "
+    "functools.wraps-decorated method, a property, a dotted holder.inner.obj.meth path, selectors written "
+    "without env= inside a function whose local object / class shadows a module-level one) x every call "
     "sequence of length <= 3 (4) over the population plus a same-named module-level decoy function. "
     "Oracle: class selector -> every call of that function; object selector -> exactly the calls whose "
     "receiver *is* that object, reported under the receiver parameter's name; decoy never. "
@@ -112,8 +113,60 @@ class Other:
         v = x + 1
         return v
 
+class Falsy:
+    """an instance that is false in a boolean context (an empty container, a null object)"""
+    def __bool__(self):
+        return False
+    def __len__(self):
+        return 0
+    def meth(self, x):
+        v = x + 1
+        return v
+    @deco
+    def wrapped(self, x):
+        v = x + 2
+        return v
+
 class Holder:
     pass
+
+# selectors written without env=: names are looked up in the scope where the probe is created
+shadow = Plain()
+only_global = Plain()
+
+def scope_shadowed(probing, log):
+    shadow = Plain()  # a local with the same name as the module-level object
+    with probing("shadow.meth > v") as p:
+        p.subscribe(log.append)
+        shadow.meth(1)
+        globals()["shadow"].meth(2)
+    return shadow
+
+def scope_local_only(probing, log):
+    only_local = Plain()
+    with probing("only_local.meth > v") as p:
+        p.subscribe(log.append)
+        only_local.meth(1)
+        shadow.meth(2)
+    return only_local
+
+def scope_global_only(probing, log):
+    with probing("only_global.meth > v") as p:
+        p.subscribe(log.append)
+        only_global.meth(1)
+        shadow.meth(2)
+    return only_global
+
+def scope_class_shadowed(probing, log):
+    class Plain:  # a local class with the name of a module-level class
+        def meth(self, x):
+            v = x + 50
+            return v
+    with probing("Plain.meth > v") as p:
+        p.subscribe(log.append)
+        Plain().meth(1)
+        globals()["Plain"]().meth(2)
+    return None
 
 def drive(objs, seq):
     n = 0
@@ -139,7 +192,7 @@ class Box:
         return a
 '''
 
-KINDS = ["Plain", "Sub", "Eq", "EqNoHash", "Slots", "Other", "EqDuck", "EqAttr"]
+KINDS = ["Plain", "Sub", "Eq", "EqNoHash", "Slots", "Other", "EqDuck", "EqAttr", "Falsy"]
 RECEIVER_NAME = {"Other": "this"}
 
 
@@ -237,6 +290,7 @@ def work(unit, tier):
         check_paths(ns, part)
         check_focus_variants(ns, part)
         check_simultaneous(ns, part)
+        check_scopes(ns, part)
         attribute_known(part)
         return part
     _, kinds, seqlen = unit
@@ -304,6 +358,32 @@ def check_focus_variants(ns, part):
                 f"{text}: expected {n} events (calls on the probed receiver only), delivered {len(got)}: {got!r}", tags=[tag]))
         else:
             part["nontrivial"] += 1
+
+
+def check_scopes(ns, part):
+    """Selectors written inside a function without env=: the object / class named is the one visible
+    in that scope (a local wins over a module-level name)."""
+    from ptera import probing
+
+    for fname, want_v in (("scope_shadowed", 2), ("scope_local_only", 2), ("scope_global_only", 2), ("scope_class_shadowed", 51)):
+        part["cases"] += 1
+        part["evaluations"] += 1
+        part["steps"] += 2
+        log = []
+        try:
+            obj = ns[fname](probing, log)
+        except BaseException as e:
+            world.reset_context()
+            part["violations"].append(violation(PROP, "scope-error", {"scope": fname}, f"{fname}: {type(e).__name__}: {e}", tags=["scope"]))
+            continue
+        exp = [{"v": want_v, "self": obj}] if obj is not None else [{"v": want_v}]
+        ok = len(log) == len(exp) and all(set(g) == set(e) and all((g[k] is e[k]) if k == "self" else g[k] == e[k] for k in e) for g, e in zip(log, exp))
+        part["outcomes"]["scope:" + ("ok" if ok else "bad")] += 1
+        if ok:
+            part["nontrivial"] += 1
+        else:
+            part["violations"].append(violation(PROP, "wrong-scope-events", {"scope": fname},
+                                                f"{fname}: expected {exp!r}, delivered {log!r}", tags=["scope"]))
 
 
 def check_simultaneous(ns, part):
@@ -378,7 +458,8 @@ def check_paths(ns, part):
     holder = ns["Holder"]()
     holder.inner = ns["Holder"]()
     holder.inner.obj = a
-    env = dict(ns, a=a, b=b, holder=holder)
+    fz, fz2 = ns["Falsy"](), ns["Falsy"]()
+    env = dict(ns, a=a, b=b, holder=holder, fz=fz, fz2=fz2)
     cases = [
         ("Plain.wrapped > v", lambda: (a.wrapped(1), b.wrapped(2)), [{"v": 3}, {"v": 4}]),
         ("a.wrapped > v", lambda: (a.wrapped(1), b.wrapped(2)), [{"v": 3, "self": a}]),
@@ -390,6 +471,8 @@ def check_paths(ns, part):
         ("Box.area() as r", lambda: (ns["Box"]().area,), [{"r": 21}]),
         ("Plain.wrapped() as r", lambda: (a.wrapped(1),), [{"r": 3}]),
         ("a.wrapped() as r", lambda: (b.wrapped(1), a.wrapped(1)), [{"r": 3, "self": a}]),
+        ("fz.wrapped > v", lambda: (fz.wrapped(1), fz2.wrapped(2)), [{"v": 3, "self": fz}]),
+        ("fz.meth > v", lambda: (fz2.meth(1), fz.meth(2)), [{"v": 3, "self": fz}]),
     ]
     for text, action, exp in cases:
         part["cases"] += 1
